@@ -315,6 +315,16 @@ def to_xyz(ctx, prog, rule):
                 for e in args[2]:
                     e = strip(e)
                     v = strip(e[2][0]) if e[0] == "call" else e
+                    # `let rgb = [r, g, b].map(|c| (c * 255.) as u8); .. rgb[0], rgb[1], rgb[2]`: the k-th element
+                    for _ in range(3):
+                        if v[0] == "index" and const_val(v[2]) is not None:
+                            base = strip(v[1])
+                            while base[0] in ("partial", "ref"):
+                                base = strip(base[1])
+                            if base[0] == "agg" and base[1][0] == "array" and const_val(v[2]) < len(base[2]):
+                                v = strip(base[2][const_val(v[2])])
+                                continue
+                        break
                     if v[0] == "cast" and v[1] == "u8":
                         mul = strip(v[2])
                         if mul[0] == "binop" and mul[1] == "Mul":
